@@ -5,6 +5,7 @@ import queue
 import random
 import threading
 import time
+import traceback
 from collections.abc import Callable
 from dataclasses import dataclass
 from typing import Optional
@@ -585,6 +586,12 @@ class RTCRtpReceiver:
 
         except asyncio.CancelledError:
             pass
+        except Exception:
+            # we *need* to set __rtcp_exited, otherwise RTCRtpReceiver.stop() will hang,
+            # so issue a warning if we hit an unexpected exception
+            logger.warning(
+                "RTCRtpReceiver(%s) %s", self.__kind, traceback.format_exc()
+            )
 
         self.__log_debug("- RTCP finished")
         self.__rtcp_exited.set()
